@@ -134,12 +134,11 @@ class MongoClient(object):
             for col_name in db_store.list_created_collection_names():
                 _db.drop_collection(col_name)
 
+        # Like pymongo, only the name of a Database argument is used.
         if isinstance(name_or_db, Database):
-            db = next(db for db in self._database_accesses.values() if db is name_or_db)
-            if db:
-                drop_collections_for_db(db)
+            name_or_db = name_or_db.name
 
-        elif name_or_db in self._store:
+        if name_or_db in self._store:
             db = self.get_database(name_or_db)
             drop_collections_for_db(db)
 
